@@ -279,8 +279,249 @@ def h_zipskip__reach(r0: int, r1: int, r2: int, n: int, order: bool):
     assert not (ok and "a/1" in roots and "a/1/2" in roots)  # twin: nested roots handled on some path
 
 
+# ---------------------------------------------------------------------------------------------- E4: export -> import round trip
+import signac
+from vflib import synclib as SL
+
+RT_U = [{"a": 1}, {"a": 10}, {"a": 1.0}, {"a": "1"}, {"a": True}, {"a": 1, "ab": 2}, {"a": {"b": 1}}, {"a": "x y.z"}]
+RT_TARGETS = ["out", "out.zip", "out.tar", "out.tar.gz", "out.tar.bz2", "out.tar.xz"]
+RT_SPECS = [None, False, "{a}", "a_{a}/{{auto}}", "{{auto:_}}", "callable"]
+
+
+def _project_content(pr):
+    out = {}
+    for job in pr:
+        files = {}
+        for dp, dn, fn in os.walk(job.path):
+            for f_ in fn:
+                rel = os.path.relpath(os.path.join(dp, f_), job.path)
+                if rel not in ("signac_statepoint.json", "signac_job_document.json"):
+                    with open(os.path.join(dp, f_), "rb") as fh:
+                        files[rel] = fh.read()
+        out[job.id] = (json.dumps(job.statepoint(), sort_keys=True), json.dumps(dict(job.document()), sort_keys=True), files)
+    return out
+
+
+def _roundtrip_case(mask, ti, si, schema_kind, deepsp):
+    problems = []
+    with SL.Scratch() as sc:
+        src = signac.init_project(os.path.join(sc.root, "src"))
+        for i, sp in enumerate(RT_U):
+            if mask >> i & 1:
+                j = src.open_job(sp).init()
+                j.document["d"] = {"i": i}
+                SL.put(j.fn("f.txt"), b"F%d" % i, SL.T_MID)
+                SL.put(j.fn("sub/n.txt"), b"N%d" % i, SL.T_MID)
+                if deepsp:
+                    # a job that carries a foreign state point file deep inside its own data (e.g. an archived older job)
+                    SL.put(j.fn("results/old/signac_statepoint.json"), b'{"a": 99}', SL.T_MID)
+        want = _project_content(src)
+        before_src = SL.snap(src.path)
+        target = os.path.join(sc.root, "exp", RT_TARGETS[ti])
+        os.makedirs(os.path.join(sc.root, "exp"))
+        outside_before = SL.snap(sc.root)
+        spec = RT_SPECS[si]
+        if spec == "callable":
+            spec = lambda job: os.path.join("byid", job.id[:16])
+        try:
+            src.export_to(target, path=spec)
+            exported = True
+        except Exception as e:  # noqa
+            exported = False
+            exc = e
+        if SL.snap(src.path) != before_src:
+            problems.append(("export changed the source project",))
+        after = SL.snap(sc.root)
+        stray = [k for k in after if k not in outside_before and not (k == "exp/" + RT_TARGETS[ti] or k.startswith("exp/" + RT_TARGETS[ti] + "/"))]
+        if stray:
+            problems.append(("export wrote outside its target", stray[:3]))
+        if not exported:
+            # the call must raise before any job has been copied
+            if ti == 0:
+                if os.path.exists(target) and any(v is not None for k, v in SL.snap(target).items()):
+                    problems.append(("export raised after copying job data", type(exc).__name__, str(exc)[:80]))
+            return problems
+        dst = signac.init_project(os.path.join(sc.root, "dst"))
+        around_before = {k: v for k, v in SL.snap(sc.root).items() if not k.startswith("dst/")}
+        schema = None
+        if schema_kind == 1:
+            def schema(path):
+                fn = os.path.join(path, "signac_statepoint.json")
+                if os.path.isfile(fn):
+                    with open(fn) as f_:
+                        return json.load(f_)
+            if ti != 0:
+                schema = None
+        try:
+            dst.import_from(target, schema=schema)
+        except Exception as e:  # noqa
+            if not want:
+                return problems      # an empty project exports nothing: there is no origin to import from
+            problems.append(("import of a successful export raised", type(e).__name__, str(e)[:100]))
+            return problems
+        got = _project_content(signac.get_project(dst.path, search=False))
+        if got != want:
+            problems.append(("re-imported project differs", sorted(set(got) ^ set(want))[:3], [i for i in set(got) & set(want) if got[i] != want[i]][:2]))
+        around_after = {k: v for k, v in SL.snap(sc.root).items() if not k.startswith("dst/")}
+        if around_after != around_before:
+            problems.append(("import wrote outside the importing project",))
+        inside = SL.snap(dst.path)
+        for k in inside:
+            if k.startswith("workspace/"):
+                parts = k.split("/")
+                if len(parts[1]) != 32:
+                    problems.append(("import wrote outside the job directories", k))
+        try:
+            signac.get_project(dst.path, search=False).check()
+        except Exception as e:  # noqa
+            problems.append(("imported project fails check()", type(e).__name__))
+        # importing again never overwrites an existing job
+        snap_dst = SL.snap(dst.path)
+        try:
+            dst.import_from(target, schema=schema)
+            if want:
+                problems.append(("second import into the same project did not refuse to overwrite existing jobs",))
+        except Exception:  # noqa
+            pass
+        if SL.snap(dst.path) != snap_dst:
+            problems.append(("a refused second import changed the project",))
+    return problems
+
+
+def h_roundtrip(mask: int, ti: int, si: int, schema_kind: int, deepsp: bool):
+    assert 0 <= mask < 256 and 0 <= ti < 6 and 0 <= si < 6 and 0 <= schema_kind <= 1 and part_ok(mask)
+    assert tier() != "quick" or (mask in (0, 1, 3, 5, 9, 17, 35, 67, 131, 7, 25, 255) and (schema_kind == 0 or ti == 0))
+    assert (not deepsp) or mask in (1, 3, 35)
+    fresh_path()
+    mask, ti, si, schema_kind, deepsp = ci(mask, 0, 255), ci(ti, 0, 5), ci(si, 0, 5), ci(schema_kind, 0, 1), cb(deepsp)
+    with nt():
+        problems = _roundtrip_case(mask, ti, si, schema_kind, deepsp)
+    reached()
+    assert not problems
+
+
 HARNESSES = [
+    dict(name="h_roundtrip", timeout=(900, 3000), parts=(16, 32), unblock=True),
     dict(name="h_leafnode", twin="h_leafnode__reach", timeout=(400, 900), parts=(9, 9)),
     dict(name="h_pathmap", twin="h_pathmap__reach", timeout=(400, 1500), parts=(14, 28), unblock=True),
     dict(name="h_zipskip", twin="h_zipskip__reach", timeout=(300, 600), unblock=True),
 ]
+
+
+# ---------------------------------------------------------------------------------------------- E3: schema string -> regex
+SCHEMAS = ["{a}", "{a:int}", "a/{a:int}", "a/{a:int}/b/{b}", "data/{a:float}_x", "v1.0/{flag:bool}/{a:int}", "{n.c:int}", "p_{a:int}.d/{b}", "{a:int}/job", "run.{a:int}"]
+
+
+def extra_checks(tier_):
+    """direct z3 language-inclusion queries on the regexes produced by the LIVE _convert_schema_path_to_regex / RE_TYPES"""
+    import re, z3
+    from vflib import re2z3
+    out = {"evaluations": 0, "distinct": 0, "queries": 0, "solver_s": 0.0, "violations": [], "errors": [], "samples": [], "info": {}}
+    q = re2z3.Q()
+    D = z3.Range("0", "9")
+    NZ = z3.Range("1", "9")
+    rendered = {
+        "int": z3.Concat(z3.Option(z3.Re("-")), z3.Union(z3.Re("0"), z3.Concat(NZ, z3.Star(D)))),                      # str(int)
+        "float": z3.Concat(z3.Option(z3.Re("-")), z3.Union(z3.Re("0"), z3.Concat(NZ, z3.Star(D))), z3.Re("."), z3.Plus(D)),  # plain decimals such as repr(1.5)
+        "bool": z3.Union(*[z3.Re(w) for w in ("true", "false", "True", "False", "0", "1")]),
+        "str": z3.Plus(z3.Union(z3.Range("a", "z"), z3.Range("A", "Z"), D, z3.Re("_"))),                               # word-like strings
+    }
+    witness_of = {"int": ["0", "-12", "7"], "float": ["1.5", "-0.25"], "bool": ["true", "False", "1"], "str": ["abc", "x_1"]}
+    slash = z3.Concat(re2z3.FULL(), z3.Re("/"), re2z3.FULL())
+    try:
+        for t, R in rendered.items():
+            L = re2z3.lang(IE.RE_TYPES[t])
+            ok, w = q.included(f"rendered {t} values subset-of RE_TYPES[{t!r}]", R, L)
+            if ok is False:
+                conv = {"int": int, "float": float, "bool": IE._convert_bool, "str": str}[t]
+                if re.fullmatch(IE.RE_TYPES[t], w) is None:
+                    out["violations"].append({"name": "schema_type_regex", "msg": f"a rendered {t} value is not matched by RE_TYPES[{t!r}]: {w!r}", "call": None, "witness": w})
+                else:
+                    out["errors"].append(f"E3 witness {w!r} not reproduced for type {t}")
+            elif ok is None:
+                out["errors"].append(f"z3 unknown for type {t}")
+            ne, w2 = q.nonempty(f"value language of {t} contains '/'", z3.Intersect(L, slash))
+            if ne is True:
+                if re.fullmatch(IE.RE_TYPES[t], w2):
+                    out["violations"].append({"name": "schema_type_slash", "msg": f"RE_TYPES[{t!r}] matches a value containing a path separator: {w2!r}", "call": None, "witness": w2})
+                else:
+                    out["errors"].append(f"E3 witness {w2!r} not reproduced (slash) for type {t}")
+    except NotImplementedError as e:
+        out["errors"].append(f"RE_TYPES not translatable: {e}")
+    # whole schema strings: the layout the schema describes (literals verbatim, each field a rendered value of its type) must be accepted,
+    # and a string that breaks a literal must not be
+    field = re.compile(r"\{(?P<key>[\.\w]+)(?::(?P<type>[a-z]+))?\}")
+    for schema in SCHEMAS:
+        try:
+            rx, types = IE._convert_schema_path_to_regex(schema)
+            L = re2z3.lang_for(rx, "match")
+        except NotImplementedError as e:
+            out["errors"].append(f"schema regex for {schema!r} not translatable: {e}")
+            continue
+        parts, idx, lits = [], 0, []
+        for m in field.finditer(schema):
+            lit = schema[idx:m.start()]
+            if lit:
+                parts.append(z3.Re(lit))
+                lits.append(lit)
+            parts.append(rendered[m.group("type") or "str"])
+            idx = m.end()
+        tail = schema[idx:]
+        if tail:
+            parts.append(z3.Re(tail))
+            lits.append(tail)
+        layout = parts[0] if len(parts) == 1 else z3.Concat(*parts)
+        ok, w = q.included(f"layout described by {schema!r} subset-of its regex", layout, L)
+        if ok is False:
+            real = re.match(rx, w) is not None
+            if not real:
+                out["violations"].append({"name": "schema_regex_layout", "msg": f"schema {schema!r}: the path {w!r} follows the described layout but is not matched by the generated regex {rx!r}", "call": None, "witness": w})
+            else:
+                out["errors"].append(f"E3 witness {w!r} for schema {schema!r} does not reproduce")
+        elif ok is None:
+            out["errors"].append(f"z3 unknown for schema {schema!r}")
+        # literal dots are literal: replacing a '.' of a literal by another character must not be accepted
+        if any("." in l for l in lits):
+            broken = []
+            for p_ in parts:
+                broken.append(p_)
+            bparts, idx = [], 0
+            for m in field.finditer(schema):
+                lit = schema[idx:m.start()]
+                if lit:
+                    bparts.append(z3.Re(lit.replace(".", "x")))
+                bparts.append(rendered[m.group("type") or "str"])
+                idx = m.end()
+            if schema[idx:]:
+                bparts.append(z3.Re(schema[idx:].replace(".", "x")))
+            B = bparts[0] if len(bparts) == 1 else z3.Concat(*bparts)
+            ne, w3 = q.nonempty(f"schema {schema!r}: a literal dot matches another character", z3.Intersect(B, L))
+            if ne is True and re.match(rx, w3):
+                out["violations"].append({"name": "schema_regex_dot", "msg": f"schema {schema!r}: {w3!r} (dot replaced) is matched by {rx!r}", "call": None, "witness": w3})
+        # parse back: concrete witnesses through the real path-based schema function
+        fn = IE._make_path_based_schema_function(schema)
+        # build one concrete path per schema from witness tables
+        concrete, expect, idx = "", {}, 0
+        for m in field.finditer(schema):
+            concrete += schema[idx:m.start()]
+            t = m.group("type") or "str"
+            val = witness_of[t][len(expect) % len(witness_of[t])]
+            concrete += val
+            expect[m.group("key")] = {"int": int, "float": float, "bool": IE._convert_bool, "str": str}[t](val)
+            idx = m.end()
+        concrete += schema[idx:]
+        got = fn(concrete)
+        want = {}
+        for k, v in expect.items():
+            cur = want
+            ks = k.split(".")
+            for kk in ks[:-1]:
+                cur = cur.setdefault(kk, {})
+            cur[ks[-1]] = v
+        if got != want:
+            out["violations"].append({"name": "schema_parse_back", "msg": f"schema {schema!r}: path {concrete!r} parses to {got!r}, expected {want!r}", "call": None, "witness": concrete})
+    out["evaluations"] = out["distinct"] = out["queries"] = q.n
+    out["solver_s"] = q.t
+    out["samples"] = q.log[:8]
+    out["info"]["schema_regexes"] = {s_: IE._convert_schema_path_to_regex(s_)[0] for s_ in SCHEMAS}
+    return out
